@@ -557,6 +557,30 @@ def accessor_rule(prog, res, fields=None):
     # accessors
     want = {"data": ("data", None), "frame_data": ("frame_data", None), "crc": ("crc", None),
             "message_number": ("message_number", None), "data_len": ("data", "len"), "frame_len": ("frame_data", "len")}
+    def plain_field(acc2, depth=0):
+        """index of the field a plain accessor returns (self.<f>, or another plain accessor applied to self), else None"""
+        g2 = prog.fn("message_frame::MessageFrame::" + acc2)
+        if g2 is None or depth > 3 or len(g2.return_blocks()) != 1:
+            return None
+        ga2 = FA(g2, prog)
+        return field_of(strip_ref(ga2.end_val(0, g2.return_blocks()[0])), depth)
+
+    def field_of(x, depth=0):
+        # self.<fld> : pf(mem(arg1), idx)   (possibly one more deref for slices)
+        while x.op == "memval" or (x.op == "mem" and x.args[0].op in ("call", "memval")):
+            x = x.args[0]
+        x = strip_ref(x)
+        if x.op == "pf" and x.args[0].op == "mem" and x.args[0].args[0].op == "arg":
+            return x.args[1]
+        # a sibling accessor applied to self: data_len() = self.data().len()
+        if x.op == "call" and isinstance(x.args[0], str) and x.args[0].startswith("message_frame::MessageFrame::") and len(x.args[1]) == 1:
+            a0 = strip_ref(x.args[1][0])
+            while a0.op in ("mem", "memval"):
+                a0 = strip_ref(a0.args[0])
+            if a0.op == "arg":
+                return plain_field(x.args[0].rsplit("::", 1)[1], depth + 1)
+        return None
+
     for acc, (fld, how) in want.items():
         g = prog.fn("message_frame::MessageFrame::" + acc)
         if g is None:
@@ -576,10 +600,7 @@ def accessor_rule(prog, res, fields=None):
                 else:
                     x = None
             if x is not None:
-                x = strip_ref(x)
-                # self.<fld> : pf(mem(arg1), idx)   (possibly one more deref for slices)
-                if x.op == "pf" and x.args[0].op == "mem" and x.args[0].args[0].op == "arg" and x.args[1] == fields.index(fld):
-                    ok = True
+                ok = field_of(strip_ref(x)) == fields.index(fld)
         res.ob("A-out", "accessor | %s() returns %s%s" % (acc, "len of " if how else "", fld), ok,
                show(v, ga.names) if v is not None else "no unique return", g.loc)
 
@@ -847,8 +868,9 @@ def rules_scan(prog, res, m=None):
                     x = x.args[1][0] if x.args[1] else None
                     if x is None:
                         break
-                if x is not None and strip_ref(x) is strip_ref(data) and chain == [
-                        "<I as core::iter::IntoIterator>::into_iter", "core::iter::Iterator::enumerate", "core::slice::<impl [T]>::iter"]:
+                if chain[:1] == ["<I as core::iter::IntoIterator>::into_iter"]:
+                    chain = chain[1:]          # identity on iterators
+                if x is not None and strip_ref(x) is strip_ref(data) and chain == ["core::iter::Iterator::enumerate", "core::slice::<impl [T]>::iter"]:
                     okit = True
         res.ob("S-first", "scan | the loop iterates data.iter().enumerate() front to back", okit and callee_of(nt) == "<core::iter::Enumerate<I> as core::iter::Iterator>::next",
                "iterator: %s ; next = %s" % (itdesc, callee_of(nt)), loc(nt["line"]), sample=itdesc)
